@@ -374,7 +374,14 @@ fn multiline_continue_group(
 fn align_key(ctx: &FormatContext, tag: &LuaDocTag) -> Option<String> {
     let k = match tag {
         LuaDocTag::Class(_) if ctx.config.should_align_emmy_doc_declaration_tags() => "class",
-        LuaDocTag::Alias(_) if ctx.config.should_align_emmy_doc_declaration_tags() => "alias",
+        // an alias whose type continues on the following `---|` lines is not a one-line entry
+        LuaDocTag::Alias(alias)
+            if ctx.config.should_align_emmy_doc_declaration_tags()
+                && !alias.syntax().text().contains_char('\n') =>
+        {
+            "alias"
+        }
+        LuaDocTag::Alias(_) => return None,
         LuaDocTag::Field(_) if ctx.config.should_align_emmy_doc_declaration_tags() => "field",
         LuaDocTag::Generic(_) if ctx.config.should_align_emmy_doc_declaration_tags() => "generic",
         LuaDocTag::Param(_) if ctx.config.should_align_emmy_doc_reference_tags() => "param",
@@ -640,6 +647,16 @@ fn extract_columns(
                 .get_type()
                 .map(|ty| type_source_text(ty.syntax()))
                 .unwrap_or_default();
+            // generic parameters belong to the name: `---@alias Box<T> T[]`
+            let name = match t.get_generic_decl_list() {
+                Some(generics) => format!("{}{}", name, format_node_tokens(plan, generics.syntax())),
+                None => name,
+            };
+            // and an attribute such as `(partial)` stands in front of it
+            let name = match t.get_type_flag() {
+                Some(flag) => format!("{} {}", format_node_tokens(plan, flag.syntax()), name),
+                None => name,
+            };
             let name_type = if type_str.is_empty() {
                 name.clone()
             } else {
